@@ -458,7 +458,9 @@ def _sniff_by_evaluation(ctx, bs, ws):
 
             facts = {"self.context": Const(tlsctx if has_ctx else None)}
             w = Walker(prog, ctx.resolver, call_value=cv, assumptions=facts, sticky=set(facts), exact_loops=True, unroll=4,
-                       inline=lambda fn, t, d: d < 3 and (t.bound_cls is not None or (fn.cls is None and fn.module is ws.module)
+                       inline=lambda fn, t, d: d < 3 and (t.bound_cls is not None
+                                                          or (fn.cls is None and fn.module.name.startswith("pygopherd")
+                                                              and fn.module.name not in ("pygopherd.logger", "pygopherd.GopherExceptions"))
                                                           or (fn.cls is not None and fn.module is ws.module)))
             holder["w"] = w
             try:
